@@ -264,7 +264,7 @@ pub fn work(ctx: &Ctx, rep: &mut Report) {
         .resizes(6);
     let cprof = Profile::general().resizes(0).length((1, 3), (1, 6));
     let pr = probes();
-    let n = ctx.scale(150_000, 1_500_000);
+    let n = ctx.scale(150_000, 4_000_000);
     for u in ctx.units(n) {
         let mut r = Rng::derive(ctx.seed, &[0xC11, 1, u as u64]);
         let mut h = gen::history(&mut r, &prof);
